@@ -5,6 +5,7 @@ import (
 	"encoding/hex"
 	"fmt"
 	"github.com/ajitpratap0/GoSQLX/pkg/gosqlx"
+	"os"
 	"reflect"
 	"runtime/debug"
 	"strings"
@@ -391,11 +392,43 @@ func runC08(c *runCtx) {
 				probes = append(probes, cs...)
 			}
 		}
+		// accepted statements too (their trees are part of the answer): the corpus and statements with several nodes of
+		// every pooled kind; before the comparison every probe is parsed and its tree released here, twice — what a
+		// released tree leaves in the process-wide pools must not show in the next tree
+		accepted := append([]string{}, builtinCorpus...)
+		accepted = append(accepted, "SELECT m[7] FROM t", "SELECT a[1], b[2][3], c[1:2] FROM t", "SELECT * FROM u WHERE (a, b) IN ((1, 2), (3, 4))", "SELECT f(a), g(b, c), h(f(d)) FROM t",
+			"SELECT CASE WHEN a THEN 1 END, CASE b WHEN 1 THEN 2 ELSE 3 END FROM t", "SELECT CAST(a AS INT), b::text FROM t", "SELECT ARRAY[1, 2], ARRAY[3] FROM t",
+			"SELECT SUM(a) OVER (PARTITION BY b ORDER BY c ROWS BETWEEN 1 PRECEDING AND CURRENT ROW) FROM t", "SELECT a BETWEEN 1 AND 2, b IN (1, 2), c LIKE 'x' FROM t",
+			"INSERT INTO t (a, b) VALUES (1, 2), (3, 4) ON CONFLICT (a) DO UPDATE SET b = 1 RETURNING a", "UPDATE t SET a = 1, b = 2 FROM u WHERE t.i = u.i", "MERGE INTO t USING u ON t.i = u.i WHEN MATCHED THEN DELETE",
+			"WITH c (x) AS (SELECT 1) SELECT x FROM c UNION ALL SELECT 2", "SELECT a FROM t JOIN u USING (i, j) LEFT JOIN v ON v.k = t.k", "SELECT EXTRACT(YEAR FROM d), INTERVAL '1 day' FROM t",
+			"CREATE TABLE t (a INT PRIMARY KEY, b TEXT NOT NULL DEFAULT 'x', CHECK (a > 0))", "SELECT a FROM t WHERE EXISTS (SELECT 1 FROM u) AND b = ANY (SELECT c FROM v)")
+		if c.quick && len(accepted) > 140 {
+			accepted = accepted[len(accepted)-140:]
+		}
+		for round := 0; round < 2; round++ {
+			for _, in := range accepted {
+				if t, err := gosqlx.Parse(in); err == nil {
+					ast.ReleaseAST(t)
+				}
+				_ = gosqlx.Validate(in)
+			}
+		}
+		probes = append(probes, accepted...)
 		for _, in := range probes {
 			fresh := newChildPool()
 			ref := fresh.Run("x:errtext", []byte(in), 20*time.Second)
 			fresh.Close()
+			// immediately before the call that is compared: the same text parsed and its tree released here (what a
+			// released tree leaves in the pools is found by the very next parse — a garbage collection in between would
+			// empty the pools and hide it)
+			if t, err := gosqlx.Parse(in); err == nil {
+				ast.ReleaseAST(t)
+			}
 			here := c08ErrTexts([]byte(in))
+			if os.Getenv("VX_VERBOSE") != "" && strings.Contains(in, "m[7]") {
+				hb, _ := hex.DecodeString(here)
+				fmt.Println("HERE", truncate(string(hb), 400))
+			}
 			res.count("fresh-process|"+in, true)
 			if ref == "crash" || ref == "hang" || ref == "child-start-failed" {
 				res.stat("fresh-process-reference-failed")
@@ -404,7 +437,7 @@ func runC08(c *runCtx) {
 			if ref != here {
 				a, _ := hex.DecodeString(ref)
 				b, _ := hex.DecodeString(here)
-				res.fail("answer-differs-from-fresh-process", "the error texts a call returns in this (long-running) process differ from those of a process that has done nothing else", map[string]any{"input": in},
+				res.fail("answer-differs-from-fresh-process", "what a call returns in this (long-running) process — error texts, or the tree — differs from what it returns in a process that has done nothing else", map[string]any{"input": in},
 					map[string]any{"fresh_process": truncate(string(a), 500), "this_process": truncate(string(b), 500)})
 			}
 		}
@@ -414,8 +447,12 @@ func runC08(c *runCtx) {
 // c08ErrTexts: the full error texts of the byte-string entry points on one input (hex, entries separated by \x00)
 func c08ErrTexts(in []byte) string {
 	var parts []string
-	_, e1 := gosqlx.Parse(string(in))
+	t1, e1 := gosqlx.Parse(string(in))
 	parts = append(parts, fmt.Sprint(e1))
+	if e1 == nil && t1 != nil {
+		parts = append(parts, dumpNode(t1))
+		ast.ReleaseAST(t1)
+	}
 	parts = append(parts, fmt.Sprint(gosqlx.Validate(string(in))))
 	parts = append(parts, fmt.Sprint(parser.Validate(string(in))))
 	_, errs := gosqlx.ParseWithRecovery(string(in))
